@@ -490,7 +490,7 @@ async fn run_roundtrip(s: &Source, info: &mut CaseInfo) -> CheckResult {
     account.sign_in(&key).await.map_err(hf(&format!("c18/{be}/roundtrip/sign-in-failed"), "sign_in with the same password on the imported account"))?;
 
     let mut w2 = AcctWorld {
-        temp: target_dir,
+        temp: target_dir.into(),
         cfg: b.w.cfg.clone(),
         account,
         account_id: b.w.account_id,
